@@ -163,7 +163,7 @@ func c12Load(c *core.Ctx, maxFault int, stride uint64) (cases []*c12Case, batter
 		cases = append(cases, &c12Case{pc: pc, rec: rec, fault: rec.Fault, fired: fired})
 	}
 	_, err = c.TLC(core.TLCOpts{Spec: "Defer", MCDefs: coreOps, CfgName: "bfs-faults",
-		Cfg: c07Cfg(3, 3, c.Pick(4, 5), "{1,2}", maxFault), OnLine: handle, Timeout: 20 * time.Minute})
+		Cfg: c07Cfg(3, 3, c.Pick(4, 5), "{1,2}", maxFault), OnLine: handle, Timeout: 40 * time.Minute})
 	if err != nil {
 		return nil, nil, err
 	}
